@@ -90,7 +90,7 @@ func runC02(c *Ctx) {
 		r.ArgValues("C02-L2", u, an.Call("raft.(*raftLog).commitTo"), 0, []string{"p0"}, 1)
 	}
 	if u := c.unit("C02-L2", "raft.(*raft).maybeCommit"); u != nil {
-		r.ArgValues("C02-L2", u, an.Call("raft.(*raftLog).maybeCommit"), 0, []string{"mci"}, 1)
+		r.ArgValues("C02-L2", u, an.Call("raft.(*raftLog).maybeCommit"), 0, []string{"recv.matchBuf[(len(recv.matchBuf) - recv.quorum())]"}, 1)
 		r.StoreValues("C02-L2", u, an.LocalStore("mci"), []string{"recv.matchBuf[(len(recv.matchBuf) - recv.quorum())]"}, 1)
 		r.ArgValues("C02-L2", u, an.Call("raft.(*raftLog).maybeCommit"), 1, []string{"recv.Term"}, 1)
 		r.StoreValues("C02-L2", u, an.StoreElem("raft.raft.matchBuf"), []string{"p.Match"}, 1)
@@ -179,10 +179,13 @@ func runC02(c *Ctx) {
 			r.Ok("C02-L6", "raft.newRaft: appliedTo(configured Applied) at construction", u.Pos(sw.S.Pos), "")
 			continue
 		}
-		// the argument is a local whose only definition is <ready>.appliedCursor()
+		// the argument is <ready>.appliedCursor() (directly or through a local that holds it)
 		arg := u.ArgTerm(sw.S, 0)
-		defs := u.Match(an.LocalStore(arg))
-		ok := len(defs) == 1 && defs[0].RHS != nil && (u.C.Term(defs[0].RHS) == "p0.appliedCursor()")
+		ok := arg == "p0.appliedCursor()"
+		if !ok {
+			defs := u.Match(an.LocalStore(arg))
+			ok = len(defs) == 1 && defs[0].RHS != nil && (u.C.Term(defs[0].RHS) == "p0.appliedCursor()")
+		}
 		r.Check("C02-L6", u.Name+": appliedTo receives the applied cursor of the Ready being advanced", u.Pos(sw.S.Pos), ok, "argument "+arg)
 	}
 	if u := c.unit("C02-L6", "raft.Ready.appliedCursor"); u != nil {
@@ -234,7 +237,7 @@ func runC02(c *Ctx) {
 		r.Check("C02-L6", fmt.Sprintf("%s: needAdvance = %s (set when a Ready is handed out, cleared only by Advance)", sw.U.Name, val), sw.U.Pos(sw.S.Pos), ok, "")
 	}
 	if u := c.unit("C02-L6", "raft.(*node).Advance"); u != nil {
-		r.Order("C02-L6", u, an.Store("raft.node.needAdvance"), []an.M{an.Call("raft.(*raftLog).appliedTo")}, an.OrderOpts{Assume: "appliedI != 0", Min: 1})
+		r.Order("C02-L6", u, an.Store("raft.node.needAdvance"), []an.M{an.Call("raft.(*raftLog).appliedTo")}, an.OrderOpts{Assume: "p0.appliedCursor() != 0", Min: 1})
 	}
 }
 
